@@ -187,6 +187,9 @@ def run(ctx, prop):
         drive(ctx, prop, "writer", ["-mode", "writer", "-seed", s, "-n", 300 if quick else 4000, "-reads", reads, "-sessions", sessions(ctx), "-nsess", 4], replay_workers=8)
         drive(ctx, prop, "exh", ["-mode", "exh", "-seed", s, "-chunks", 2, "-msgs", 2, "-times", 3, "-stride", 8 if quick else 1, "-reads", reads])
     elif prop in ("C03", "C04"):
+        if prop == "C03":
+            # the decision table (incl. Readers over sources that cannot seek): a time order is served through the index or refused
+            drive(ctx, prop, "decision", ["-mode", "decision", "-in", decisions(ctx)])
         drive(ctx, prop, "replay", ["-mode", "rand", "-seed", s + 7, "-n", 12, "-reads", reads], replay_workers=8)
         drive(ctx, prop, "exh", ["-mode", "exh", "-seed", s, "-chunks", 2, "-msgs", 2, "-times", 4, "-stride", 6 if quick else 1, "-reads", reads])
         if prop == "C03":
